@@ -182,6 +182,52 @@ def offset_reservation_rule(ctx: Ctx, rid: str):
         raise AnchorMissing("bookResource: start-offset reservation write not found")
 
 
+def slot_increment_rule(ctx: Ctx, rid: str):
+    """What book() adds to a slot's total -- and credits -- is, on every path, derived from what is left in that slot
+    (C01 R01.9 / C03 R03.11): each definition of the increment depends on the slot's ledger entry."""
+    book = ctx.repo.func("ResourceScenario.book")
+    fd = ctx.dep.of(book)
+    incs = []
+    for n in own_nodes(book):
+        if isinstance(n, ast.Assign) and len(n.targets) == 1 and isinstance(n.targets[0], ast.Subscript) \
+                and norm(n.targets[0].value) == "self.slotSecondsUsed":
+            incs.append(n)
+        elif isinstance(n, ast.AugAssign) and isinstance(n.target, ast.Subscript) and norm(n.target.value) == "self.slotSecondsUsed":
+            incs.append(n)
+    if not incs:
+        raise AnchorMissing("ResourceScenario.book: no write of slotSecondsUsed[...]")
+    res = local_resolver(book.node)
+    nobs = 0
+    for w in incs:
+        # the names the new total is computed from, other than the previous total itself
+        names = []
+        for x in ast.walk(w.value):
+            if isinstance(x, ast.Name) and isinstance(x.ctx, ast.Load):
+                vals = res(x)
+                if vals and all("slotSecondsUsed" in norm(v) for v in vals):
+                    continue                      # the previous total
+                names.append(x.id)
+        for nm in sorted(set(names)):
+            defs = [d for d in own_nodes(book) if isinstance(d, (ast.Assign, ast.AnnAssign)) and d.value is not None
+                    and any(isinstance(t, ast.Name) and t.id == nm for t in (d.targets if isinstance(d, ast.Assign) else [d.target]))]
+            def alts(e):
+                if isinstance(e, ast.IfExp):
+                    return alts(e.body) + alts(e.orelse)
+                return [e]
+            for d, alt in [(d, a) for d in defs for a in alts(d.value)]:
+                atoms = data(fd.deps_of(alt))          # data flow only: the guard at the top of book() controls every path
+                ok = "field:slotSecondsUsed" in atoms or "call:getAvailableSecondsInSlot" in atoms
+                nobs += 1
+                ctx.ob(rid, f"{book.qual}: increment {nm} = {norm(alt)[:60]}", (book, d), ok,
+                       "the amount booked is what the ledger says is left in the slot" if ok else
+                       f"on this path the amount added to the slot's total (and credited as effort) is {norm(alt)[:50]}, which does not "
+                       "depend on what is already used or set aside in the slot: a slot whose first part is reserved (mid-slot start) or "
+                       "partly used is booked as a whole",
+                       key=key_of(rid, book, alt, "increment"))
+    if not nobs:
+        raise AnchorMissing("ResourceScenario.book: the increment of slotSecondsUsed is not a local quantity")
+
+
 def run_extra(ctx: Ctx):
     # ---------------------------------------------------------------- R01.8 answers never come from state that outlives the question
     from .common import process_state_rule
@@ -383,6 +429,8 @@ def run(ctx: Ctx):
     from .c12 import ledger_survives_prepare_rule
     ledger_survives_prepare_rule(ctx, "R01.7")
     ctx.floor("R01.7", 2)
+    slot_increment_rule(ctx, "R01.9")
+    ctx.floor("R01.9", 1)
     ctx.floor("R01.1", 5)
     ctx.floor("R01.2", 7)
     ctx.floor("R01.3", 2)
